@@ -1443,26 +1443,25 @@ def run(ctx: vlib.Ctx):
         "histories have duplicate tags (correspondence only). Plus 14 fixed edge histories, the stream inside the known-"
         "former finding region (plain holders, no-field) and two probes (several taggers in one holder, Optional-Union).")
     ctx.assumptions += [
-        "tag uniqueness is required only for the decoded tag among the classes defined before the event (tag_unique); "
-        "without it the result depends on the history (C12_nonunique_order_dependent, reproduced on /repo each run)",
-        "(X1) field mode: when the class carrying the tag declares its own class-level discriminator the oracle applies the "
-        "property to that inner dispatcher on the same input (settings read from the real class); no-field mode: the oracle is "
-        "silent when an eligible class declares its own class-level discriminator (no_nested); the theorems keep the hypotheses "
-        "plain_carriers / no_nested, the nested behaviour itself is in the model and in the correspondence",
-        "no-field mode through an Annotated holder over plain dataclasses (former finding nofield-inherited-unpacker, "
-        "repaired by /repo 233f7d4) is part of the main stream and has a dedicated stream",
-        "Annotated[Optional[Union[..]], D] with include_supertypes and a tagger (known finding optional-union-nonetype-variant) "
-        "is in the model (crash_on_refill; theorems carry the hypothesis no_crash / crash_on_refill s = false, refuted "
-        "without it: C12_optional_union_refuted); the oracle classifies those failures by signature",
-        "C12_registry has the hypothesis no_keyerror (the selected class's own from_dict does not leak a KeyError); the "
-        "full statement is refuted in the faithful model (C12_variant_keyerror_refuted, known finding variant-keyerror-"
-        "misreported): the oracle reports those inputs as the known finding",
-        "inputs are mappings with hashable tags (non-mapping / unhashable inputs belong to C05)",
+        "tag uniqueness is required only for the tags the input carries, at the dispatchers that read them, among the classes "
+        "defined before the event (uniq_all / tag_unique; computable: uniq_allb / tag_uniqueb, evaluated in every correspondence "
+        "case); without it the result depends on the history (C12_nonunique_order_dependent, reproduced on /repo each run)",
+        "nested class-level dispatchers of either mode need no hypothesis: C12_dispatch_ref states the answer of the stateful "
+        "dispatcher against the registry-free reference semantics ref_decode (also compared with the implementation in "
+        "every correspondence case); the older relational theorems C12_registry / C12_nofield / C12_multi_field keep "
+        "plain_carriers / no_nested",
+        "the Python oracle is compositional in field mode (a selected class with its own class-level discriminator is decoded by "
+        "that dispatcher) and silent in no-field mode when an eligible class declares its own class-level discriminator",
+        "no open known finding: nofield-inherited-unpacker (233f7d4), tagger-fn-name-collision (79143aa), variant-keyerror-"
+        "misreported (2eac3a7), optional-union-nonetype-variant (439013a) are repaired in /repo; the reverse patches are caught",
     ]
     ctx.trusted += [
         "tools/kernels/k12_discr.py: translator of iter_all_subclasses / _get_variant_names / the class-level Discriminator rebuild "
         "(generator -> list function with fuel, starred tuple entries -> concatenation; PyK_discr.v); validated against CPython every run",
-        "Discr.v step/walk/refill: hand-written model of unpack.py:359-469 + helpers.iter_all_subclasses, compared with /repo on every run (M)",
+        "Discr.v dispatcher/walk/refill + DiscrRef.v ref_decode: hand-written model and reference semantics of unpack.py `_add_body` "
+        "+ helpers.iter_all_subclasses, both compared with /repo on every run (M)",
+        "K12 additionally reads the exception structure of the field branch (six handlers, bases of the two error classes, whether "
+        "the variant call is inside a guarded region); CPython's exception subclass relation is modelled in PyK_discr.subclass_of",
         "modelled, not verified: type.__subclasses__() order = definition order, dict overwrite/lookup by ==/hash, "
         "class attribute lookup in own __dict__, dataclass __init__ acceptance = all default-less fields present",
         "harness/props/c12.py: rendering of histories as Python source and as Coq terms; the independent oracle (issubclass + own __dict__)",
